@@ -42,6 +42,19 @@ def run(ctx):
     for need in ("answer:framedata", "answer:fpo", "answer:cfi", "answer:none"):
         if repk["classes"].get(need, 0) == 0:
             raise core.ToolFailure("vacuous replay: WinKinds class %s never exercised" % need)
+    # ---- STACK WIN through the real x86 walker and a real 32-bit context: on every stack of WalkerX86.tla (mode any) the rule shapes that
+    #      unwind by frame data / FPO must agree exactly with the model (return address, esp, ebp / ebx, validity, the parameter size taken
+    #      from the frame-data record when both kinds cover the function); a disagreement there is a violation of C07, not drift
+    wx = ctx.tlc("WalkerX86", "MC_WalkerX86_any", coverage=False, timeout=3000, out_name="walkerx86_any")
+    if wx.violated:
+        raise core.ToolFailure("invariant %s of WalkerX86.tla is violated in the model" % wx.violated)
+    drift_before = list(ctx.drift)
+    repx = ctx.read_harness_report(ctx.harness("replay_walk", ["x86", wx.out_path, ctx.work / "x86_any.trace.ndjson"], out_name="replay_x86_strict.out",
+                                               timeout=3000, env={"VERIF_STRICT_RULES": "win_std,win_ra,fpo,fpo_bp,std_fpo,std_cfi"}))
+    ctx.drift = drift_before
+    for need in ("rule:win_std", "rule:fpo", "rule:std_fpo"):
+        if repx["classes"].get(need, 0) == 0:
+            raise core.ToolFailure("vacuous replay: no walk under rule shape %s" % need)
     # ---- parser layer: overlapping / duplicate STACK WIN records (RangeMap.tla, WinTable): for C07 the table the
     #      parser builds must be exactly the documented one (first of identical records wins, a record starting
     #      inside the previous one truncates it), so any difference from the model is a violation here
@@ -63,7 +76,7 @@ def run(ctx):
     for need in ("fpo_ok_bp", "fpo_ok_passthrough", "fpo_ok_leftover_skip", "fpo_fails"):
         if repf["classes"].get(need, 0) == 0:
             raise core.ToolFailure("vacuous replay: class %s never exercised" % need)
-    evals = sum(r["evaluations"] for r in reps) + repf["evaluations"] + repw["evaluations"] + repk["evaluations"]
+    evals = sum(r["evaluations"] for r in reps) + repf["evaluations"] + repw["evaluations"] + repk["evaluations"] + repx["evaluations"]
     cov = {
         "states": sum(r.distinct for _, r in runs) + f.distinct + wk.distinct,
         "transitions": sum(r.generated for _, r in runs) + f.generated,
